@@ -654,7 +654,9 @@ def _flag(stack):
     return ["-f", "stack"] if stack else []
 
 
-def _cli_validate(chk, events, name):
+def _cli_validate(chk, events, name, soft=None):
+    """soft: an event kind whose rejections are NOT verdicts about the property (the code no longer follows the modelled protocol while
+    the property may well hold); they are returned, for the evidence, instead of being reported."""
     path = _wpath("%s_%s.ndjson" % (chk.pid.lower(), name))
     with open(path, "w") as f:
         for e in events:
@@ -664,12 +666,16 @@ def _cli_validate(chk, events, name):
     chk.evaluations += len(events)
     if res["consumed"] != res["nrec"]:
         raise vlib.ToolError("Trace_Cli consumed %s of %s events" % (res["consumed"], res["nrec"]))
+    softs = []
     for i in sorted(res["bad"]):
         e = events[i - 1]
         slim = {k: v for k, v in e.items() if k not in ("ast", "bytes", "after", "before")}
+        if soft and e["ev"] == soft:
+            softs.append(slim)
+            continue
         chk.violation("%s:%s" % (e["ev"], e.get("tag", "")), "observation of the real binary not allowed by Trace_Cli: %s" % json.dumps(slim)[:400],
                       {"family": "cli", "events": [e]})
-    return path
+    return softs if soft else path
 
 
 def _norm_out(b, paths):
@@ -897,16 +903,69 @@ def _strace_ok():
     return _STRACE_OK
 
 
+def _compile_syscalls(log, marker, dest):
+    """strace log of `lace compile` -> (number of create/truncate opens of the destination or its siblings, events for Compile!Step)."""
+    import re as _r
+    pat = _r.compile(r'^\d+\s+(\w+)\((.*)\)\s+=\s+(-?\d+|\?)')
+    roles = {}
+    opens = 0
+    evs = []
+    dest_s = dest if isinstance(dest, str) else None
+    for line in open(log, errors="replace"):
+        m = pat.match(line)
+        if not m:
+            continue
+        call, args, ret = m.group(1), m.group(2), m.group(3)
+        ok = ret != "?" and int(ret) >= 0
+        if call in ("openat", "open", "creat"):
+            q = _r.search(r'"((?:[^"\\]|\\.)*)"', args)
+            path = q.group(1) if q else ""
+            mine = marker in path or (dest_s is not None and path.startswith(dest_s))
+            writing = call == "creat" or any(f in args for f in ("O_CREAT", "O_TRUNC", "O_WRONLY", "O_RDWR"))
+            if mine and writing:
+                opens += 1
+                role = "tmp" if path.endswith(".tmp") else "dest"
+                if ok:
+                    roles[int(ret)] = role
+                evs.append({"op": "open_" + role, "ok": ok, "code": 0})
+        elif call == "write":
+            fd = int(args.split(",")[0]) if args.split(",")[0].strip().isdigit() else -1
+            if fd == 1:
+                evs.append({"op": "msg", "ok": ok, "code": 0})
+            elif fd in roles:
+                evs.append({"op": "write_" + roles[fd], "ok": ok, "code": 0})
+        elif call in ("rename", "renameat", "renameat2"):
+            if marker in args or (dest_s is not None and dest_s in args):
+                evs.append({"op": "rename", "ok": ok, "code": 0})
+        elif call in ("unlink", "unlinkat"):
+            if marker in args or (dest_s is not None and dest_s in args):
+                evs.append({"op": "unlink_tmp", "ok": ok, "code": 0})
+        elif call == "exit_group":
+            code = int(args.strip()) if args.strip().lstrip("-").isdigit() else -1
+            evs.append({"op": "exit", "ok": True, "code": code})
+    return opens, evs
+
+
 def check_C08(replay=None):
     chk = Check("C08", level="fault_enumeration")
     chk.rule = ("fault point = (source whose out-of-range label reference sits at statement position p for each PC-relative instruction, or a valid source) x destination in {absent, existing file, existing longer object, /dev/full, path in a missing directory, "
-                "name that is not UTF-8, long multi-byte name, stdout that accepts no data, regular file that cannot be written (RLIMIT_FSIZE = 0)}; "
+                "name that is not UTF-8, long multi-byte name, stdout that accepts no data at all / none after the first message, regular file that cannot be written (RLIMIT_FSIZE = 0)}; "
+                "MC_Compile explores the protocol model (Compile.tla) with a fault at every step and must reject the two earlier designs; the system calls of every run are replayed through Compile!Step (drift is reported in the evidence, it is not a verdict); "
                 "`lace compile src dest` of the real binary runs under strace; Trace_Cli!AtomicOk requires exit 0 => destination holds exactly the object bytes, exit != 0 => destination bytes unchanged, and no open(O_CREAT|O_TRUNC) of "
                 "the destination before assembly succeeded. distinct = (source, destination kind) pairs")
     chk.assumptions = ["write faults are injected with /dev/full, an uncreatable path and a process that may not write to regular files at all (RLIMIT_FSIZE = 0, standing in for a full disk); "
                        "a write that succeeds for the first k bytes and then fails is not injected separately (the command issues one write_all)"]
     vlib.build(need_cli=True)
     thorough = chk.tier == "thorough"
+    # (A) the protocol as a transition system: every event sequence Compile!Step allows, a fault at every step that can fail
+    chk.add_mc(tlc_mc("MC_Compile", "MC_Compile.cfg", workers=2, coverage=False), "MC_Compile")
+    for cfg, what in (("MC_Compile_old.cfg", "create-then-write"), ("MC_Compile_msgfatal.cfg", "fatal messages"), ("MC_Compile_vacuity.cfg", "a successful run exists")):
+        sanity = tlc_mc("MC_Compile", cfg, workers=2, coverage=False)
+        if sanity["ok"]:
+            raise vlib.ToolError("%s should be violated (%s): the protocol model would be vacuous" % (cfg, what))
+        chk.states += sanity["distinct"]
+        chk.transitions += sanity["generated"]
+    chk.extra["flawed_designs_rejected_by_TLC"] = ["create-then-write (before fix 1a368e8)", "println! messages (before fix 4b29569)"]
     d, man = _files(chk, "atomic", 0)
     use_strace = _strace_ok()
     chk.extra["strace"] = use_strace
@@ -917,6 +976,9 @@ def check_C08(replay=None):
     # a REGULAR destination that cannot be completely written: the process may not write a single byte to a regular file
     # (RLIMIT_FSIZE = 0, SIGXFSZ ignored: write() fails with EFBIG as it would with ENOSPC on a full disk)
     jobs += [(c, dk) for i, c in enumerate(man) for dk in ("absent-fsize", "file-fsize") if i % 3 != 2]
+    # ... and a stdout that stops accepting data AFTER the first message (a regular file at its size limit): what is printed once
+    # the object is in place must not turn a finished compile into a failed one
+    jobs += [(c, dk) for i, c in enumerate(man) for dk in ("absent-msgfail", "file-msgfail") if i % 3 != 1]
 
     def atomic(job):
         c, dk = job
@@ -943,40 +1005,59 @@ def check_C08(replay=None):
             dest = os.fsencode(base) + b"\xff\xfe.lc3"          # a file name that is not valid UTF-8
         elif dk == "longutf8":
             dest = base + "\u00e9" * 45 + ".lc3"                 # long, multi-byte characters all along
-        elif dk in ("absent-outfull", "absent-fsize"):
+        elif dk in ("absent-outfull", "absent-fsize", "absent-msgfail"):
             dest = base + ".lc3"
-        elif dk in ("file-outfull", "file-fsize"):
+        elif dk in ("file-outfull", "file-fsize", "file-msgfail"):
             dest = base + ".lc3"
             open(dest, "wb").write(old)
         else:
             dest = os.path.join(base + "_missing_dir", "x.lc3")
         regular = dk not in ("devfull", "nodir")
+        limit = None          # RLIMIT_FSIZE for the command (None = unlimited)
+        out_path = None
+        if dk.endswith("-fsize"):
+            limit = 0
+        if dk.endswith("-msgfail"):
+            # stdout is a regular file and the size limit lets the first message and the object through, but not the messages
+            # printed after the object has been written
+            tmp = base + ".probe.lc3"
+            r0 = vlib.run_lace(["compile"] + _flag(c["stack"]) + [c["path"], tmp])
+            nbytes = os.path.getsize(tmp) if r0[0] == 0 and os.path.exists(tmp) else 4
+            if os.path.exists(tmp):
+                os.remove(tmp)
+            first = len(("%12s target %s\n" % ("Assembling", c["path"])).encode())
+            pad = max(0, nbytes - first)
+            limit = pad + first + 10
+            out_path = base + ".stdout"
+            open(out_path, "wb").write(b"#" * pad)
         before = list(open(dest, "rb").read()) if regular and os.path.exists(dest) else [-1]
         log = base + ".strace"
         argv = ["compile"] + _flag(c["stack"]) + [c["path"], dest]
         opens = -1
-        sink = open("/dev/full", "wb") if dk.endswith("-outfull") else _sp.PIPE
+        sys_events = []
+        if dk.endswith("-outfull"):
+            sink = open("/dev/full", "wb")
+        elif out_path:
+            sink = open(out_path, "ab")
+        else:
+            sink = _sp.PIPE
         marker = os.path.basename(base) + "."          # every spelling of the destination starts with it; the source's name does not
-        def no_file_writes():
+
+        def limited():
             import resource, signal
             signal.signal(signal.SIGXFSZ, signal.SIG_IGN)
-            resource.setrlimit(resource.RLIMIT_FSIZE, (0, 0))
-        fsize = dk.endswith("-fsize")
+            resource.setrlimit(resource.RLIMIT_FSIZE, (limit, limit))
         for attempt in (60, 600):
             try:
-                if fsize:
-                    # (not under strace: its own log is a regular file)
-                    code = _sp.run([vlib.LACE_BIN] + argv, stdout=sink, stderr=_sp.PIPE, cwd=WORK, timeout=attempt, preexec_fn=no_file_writes).returncode
-                elif use_strace:
-                    r = _sp.run(["strace", "-f", "-e", "trace=openat,creat,open", "-o", log, vlib.LACE_BIN] + argv, stdout=sink, stderr=_sp.PIPE, cwd=WORK, timeout=attempt)
+                if use_strace and (limit is None or wrap_ok):
+                    wrap = ["prlimit", "--fsize=%d:%d" % (limit, limit), "env", "--ignore-signal=XFSZ"] if limit is not None else []
+                    r = _sp.run(["strace", "-f", "-e", "trace=openat,creat,open,write,rename,renameat,renameat2,unlink,unlinkat,exit_group", "-o", log] + wrap + [vlib.LACE_BIN] + argv,
+                                stdout=sink, stderr=_sp.PIPE, cwd=WORK, timeout=attempt)
                     code = r.returncode
-                    opens = 0
-                    for line in open(log, errors="replace"):
-                        if marker in line and ("O_CREAT" in line or "O_TRUNC" in line or "creat(" in line):
-                            opens += 1
+                    opens, sys_events = _compile_syscalls(log, os.path.basename(base), dest)
                     os.remove(log)
                 else:
-                    code = _sp.run([vlib.LACE_BIN] + argv, stdout=sink, stderr=_sp.PIPE, cwd=WORK, timeout=attempt).returncode
+                    code = _sp.run([vlib.LACE_BIN] + argv, stdout=sink, stderr=_sp.PIPE, cwd=WORK, timeout=attempt, preexec_fn=limited if limit is not None else None).returncode
                 break
             except _sp.TimeoutExpired:
                 if attempt == 600:
@@ -985,14 +1066,27 @@ def check_C08(replay=None):
             sink.close()
         after = list(open(dest, "rb").read()) if dk != "devfull" and os.path.exists(dest) else [-1]
         # nothing else may be left behind next to the destination either (temporary files)
-        litter = sorted(n for n in os.listdir(os.path.dirname(base)) if n.startswith(marker) and os.path.join(os.path.dirname(base), n) != (dest if isinstance(dest, str) else "")
-                        and not n.endswith(".strace") and "_missing_dir" not in n) if fsize else []
+        dname = os.path.dirname(base)
+        mine = {os.path.basename(dest) if isinstance(dest, str) else None, os.path.basename(out_path) if out_path else None}
+        litter = sorted(n for n in os.listdir(dname) if n.startswith(marker) and n not in mine and not n.endswith(".strace") and "_missing_dir" not in n) if isinstance(dest, str) else []
+        if out_path:
+            os.remove(out_path)
         if dk == "devfull":
             after = before = [-2]
-        return {"ev": "atomic", "tag": c["tag"] + ":" + dk, "ast": c["ast"], "stack": c["stack"], "dest": dk, "code": code,
-                "before": before, "after": after, "opens": opens, "litter": len(litter), "src": c["src"]}
-    events = parallel(atomic, jobs, 8)
-    _cli_validate(chk, events, "atomic")
+        ev = {"ev": "atomic", "tag": c["tag"] + ":" + dk, "ast": c["ast"], "stack": c["stack"], "dest": dk, "code": code,
+              "before": before, "after": after, "opens": opens, "litter": len(litter), "src": c["src"]}
+        evs = [ev]
+        if sys_events:
+            evs.append({"ev": "compile_sys", "tag": ev["tag"], "ast": c["ast"], "stack": c["stack"], "kind": "special" if dk == "devfull" else "nodir" if dk == "nodir" else "regular",
+                        "d0": "absent" if before == [-1] else "old", "code": code, "sys": sys_events})
+        return evs
+    wrap_ok = use_strace and _sp.run(["prlimit", "--fsize=0:0", "env", "--ignore-signal=XFSZ", "true"], stdout=_sp.PIPE, stderr=_sp.PIPE).returncode == 0
+    events = [e for evs in parallel(atomic, jobs, 8) for e in evs]
+    drift = _cli_validate(chk, events, "atomic", soft="compile_sys")
+    chk.extra["protocol_runs"] = sum(1 for e in events if e["ev"] == "compile_sys")
+    chk.extra["protocol_drift_count"] = len(drift)
+    chk.extra["protocol_drift"] = drift[:5]
+    events = [e for e in events if e["ev"] == "atomic"]
     chk.distinct = max(chk.distinct, 2)
     chk.samples = [{k: v for k, v in events[1].items() if k != "ast"}, {k: v for k, v in events[-2].items() if k != "ast"}]
     _shutil.rmtree(d, ignore_errors=True)
